@@ -79,6 +79,7 @@ func main() {
 	r.Set("validateblock_cases", int(st3a.cases))
 	r.Set("validateblock_accepted", int(st3a.accepted))
 	r.Set("validateblock_verdicts", v3a)
+	r.Set("validateblock_panics", int(st3a.panics))
 	r.Set("fastsync_cases", int(st3b.cases))
 	r.Set("fastsync_accepted", int(st3b.accepted))
 	r.Set("fastsync_verdicts", v3b)
